@@ -101,6 +101,12 @@ func (lc *LogicContext) makeSetupUri(uri string, aControl string) string {
 
 func ParseSdp2LogicContext(b []byte) (LogicContext, error) {
 	var ret LogicContext
+	// 零值不是"没有"：base.AvPacketPt的0是G711U，rtp payload type的0是PCMU。
+	// 不初始化的话，只有视频的sdp会被当成同时有G711U音频（IsAudioUnpackable为true），上层会创建音视频交织队列，一直等不存在的音频
+	ret.audioPayloadTypeBase = base.AvPacketPtUnknown
+	ret.videoPayloadTypeBase = base.AvPacketPtUnknown
+	ret.audioPayloadTypeOrigin = -1
+	ret.videoPayloadTypeOrigin = -1
 
 	c, err := ParseSdp2RawContext(b)
 	if err != nil {
